@@ -108,7 +108,8 @@ def run(ctx):
 
     def oracles():
         import traceback
-        for fn, args in ((_oracle_cells, (ctx, meshes, tr)), (_oracle_facets, (ctx, meshes, tr)), (_oracle_invariance, (ctx, meshes, tr)),
+        for fn, args in ((_oracle_subset_sequences, (ctx, meshes, tr)), (_oracle_order_sweep, (ctx, tr)),
+                         (_oracle_cells, (ctx, meshes, tr)), (_oracle_facets, (ctx, meshes, tr)), (_oracle_invariance, (ctx, meshes, tr)),
                          (_oracle_lagrange, (ctx, tr)), (_oracle_partition_of_unity, (ctx, meshes, tr))):
             try:
                 fn(*args)
@@ -283,6 +284,141 @@ def _oracle_cells(ctx, meshes, tr):
         if len(ctx.cov['samples']) < 4:
             ctx.sample({'mesh': type(m).__name__, 'p': np.asarray(m.p).astype(int).tolist(), 't': np.asarray(m.t).tolist(),
                         'exact_measure': str(sum(X.cell_integrals(m, {tuple([0] * d): Fraction(1)})))})
+
+
+# ---- every integration order the tables offer (odd ones too), cells and facets, small meshes near the origin
+
+def _offered_orders(refdom, cap):
+    from skfem.quadrature import get_quadrature
+    out = []
+    for n in range(1, cap + 1):
+        try:
+            get_quadrature(refdom, n)
+        except NotImplementedError:
+            break
+        out.append(n)
+    return out
+
+
+def _small_mesh(kind, rng, tries=60):
+    """the candidate with the smallest coordinates (high powers stay well conditioned)"""
+    best = None
+    for _try in range(tries):
+        m = X.make_mesh(kind, rng, general=False, size=1)
+        if X.is_valid(m):
+            r = float(np.abs(m.p).max())
+            if best is None or r < best[0]:
+                best = (r, m)
+    if best is None:
+        raise RuntimeError(f'could not generate a small {kind} mesh')
+    return best[1]
+
+
+def _sweep_monos(d, n, rng):
+    top = [e for e in monos(d, n) if sum(e) == n]
+    pick = {top[0], top[-1], top[len(top) // 2]} | set(rng.sample(top, min(2, len(top))))
+    low = [e for e in monos(d, n) if 1 <= sum(e) < n]
+    pick |= set(rng.sample(low, min(2, len(low))))
+    pick.add(tuple([0] * d))
+    return sorted(pick)
+
+
+def _tight_scale(m, e, measure):
+    r = np.abs(np.asarray(m.p)).max(axis=1)
+    return measure * float(np.prod([max(float(r[i]), 1.0) ** ei for i, ei in enumerate(e)])) + 1e-300
+
+
+def _oracle_order_sweep(ctx, tr):
+    """one small mesh per cell type and per integration order that get_quadrature offers for the cell (and for its
+    facets): integrals of monomials up to that order over all cells / over the boundary vs the exact values"""
+    from skfem.assembly import Basis, FacetBasis
+    rng = ctx.rng
+    q = ctx.quick()
+    caps = {'line': 12 if q else 30, 'tri': 40, 'tet': 40, 'quad': 9 if q else 16, 'hex': 5 if q else 8, 'wedge': 40}
+    fcaps = {'tri': 12 if q else 30, 'quad': 12 if q else 30, 'tet': 40, 'hex': 7 if q else 12}
+    for kind in ('line', 'tri', 'tet', 'quad', 'hex', 'wedge'):
+        m = _small_mesh(kind, rng)
+        d = m.p.shape[0]
+        elem = default_elem(m)
+        one = {tuple([0] * d): Fraction(1)}
+        measure = float(sum(X.cell_integrals(m, one)))
+        orders = _offered_orders(m.refdom if hasattr(m, 'refdom') else elem.refdom, caps[kind])
+        ctx.extra.setdefault('orders_swept_cells', {})[kind] = [orders[0], orders[-1]]
+        for n in orders:
+            b = Basis(m, elem, intorder=n)
+            for e in _sweep_monos(d, n, rng):
+                poly = X.monomial(e)
+                want = float(sum(X.cell_integrals(m, poly)))
+                got = float(functional_of(poly).assemble(b))
+                ctx.count(('sweep-cells', kind, n, e, np.asarray(m.p).tobytes()), nontrivial=sum(e) >= 1)
+                tr.cmp(f'cells:{kind}:order={n}', f'Functional(x^{list(e)}) over all cells of a {kind} mesh, intorder {n}', got, want,
+                       _tight_scale(m, e, measure), {**mesh_data(m), 'intorder': n, 'monomial': list(e)})
+            ctx.hist('sweep-intorder:' + kind, n)
+        if kind in fcaps:
+            fs = m.boundary_facets()
+            fmeasure = max(X.facet_integral_value(m, one, fs), 1.0)
+            forders = _offered_orders(elem.refdom.brefdom, fcaps[kind])
+            ctx.extra.setdefault('orders_swept_facets', {})[kind] = [forders[0], forders[-1]]
+            for n in forders:
+                fb = FacetBasis(m, elem, facets=fs, intorder=n)
+                for e in _sweep_monos(d, n, rng)[:6]:
+                    poly = X.monomial(e)
+                    want = X.facet_integral_value(m, poly, fs)
+                    got = float(functional_of(poly).assemble(fb))
+                    ctx.count(('sweep-facets', kind, n, e, np.asarray(m.p).tobytes()), nontrivial=sum(e) >= 1)
+                    tr.cmp(f'facets:{kind}:boundary:order={n}', f'Functional(x^{list(e)}) over boundary facets of a {kind} mesh, intorder {n}',
+                           got, want, _tight_scale(m, e, fmeasure),
+                           {**mesh_data(m), 'facets': np.asarray(fs).tolist(), 'intorder': n, 'monomial': list(e)})
+
+
+# ---- several different cell / facet subsets of EQUAL size, one after the other on ONE long-lived mesh object
+
+def _oracle_subset_sequences(ctx, meshes, tr):
+    from skfem.assembly import Basis, FacetBasis
+    rng = ctx.rng
+    for kind, general, m in meshes:
+        d = m.p.shape[0]
+        nt_ = m.t.shape[1]
+        if nt_ < 3:
+            continue
+        elem = default_elem(m)
+        n = 3
+        deg = 2 if (kind == 'quad' and general) else 3
+        polys = [X.monomial(e) for e in ([tuple([0] * d)] + [e for e in monos(d, deg) if sum(e) == deg][:2] + [e for e in monos(d, 1) if sum(e) == 1][:1])]
+        one = {tuple([0] * d): Fraction(1)}
+        measure = float(sum(X.cell_integrals(m, one)))
+        size = max(1, nt_ // 3)
+        seq = []
+        while len(seq) < 4:
+            sub = sorted(rng.sample(range(nt_), size))
+            if sub not in seq or nt_ <= 4:
+                seq.append(sub)
+        for k, sub in enumerate(seq):
+            b = Basis(m, elem, intorder=n, elements=np.array(sub))
+            for poly in polys:
+                e = next(iter(poly))
+                want = float(sum(X.cell_integrals(m, poly, sub)))
+                got = float(functional_of(poly).assemble(b))
+                ctx.count(('subset-seq', kind, general, k, e, np.asarray(m.p).tobytes()), nontrivial=k >= 1)
+                tr.cmp(f'subset-seq:{kind}{"-general" if general else ""}', f'Functional(x^{list(e)}) over cell subset no. {k + 1} of equal size '
+                       f'on one {kind} mesh object', got, want, scale_of(m, poly, measure),
+                       {**mesh_data(m), 'intorder': n, 'monomial': list(e), 'sequence_of_subsets': seq, 'index': k})
+        if kind in ('wedge', 'line') or (kind == 'quad' and general):
+            continue
+        nf = m.facets.shape[1]
+        fsize = max(1, nf // 4)
+        fseq = [sorted(rng.sample(range(nf), fsize)) for _ in range(4)]
+        for k, fs in enumerate(fseq):
+            fb = FacetBasis(m, elem, facets=np.array(fs), intorder=n)
+            fone = max(X.facet_integral_value(m, one, fs), 1.0)
+            for poly in polys[:3]:
+                e = next(iter(poly))
+                want = X.facet_integral_value(m, poly, fs)
+                got = float(functional_of(poly).assemble(fb))
+                ctx.count(('facet-seq', kind, general, k, e, np.asarray(m.p).tobytes()), nontrivial=k >= 1)
+                tr.cmp(f'facet-seq:{kind}', f'Functional(x^{list(e)}) over facet subset no. {k + 1} of equal size on one {kind} mesh object',
+                       got, want, scale_of(m, poly, fone),
+                       {**mesh_data(m), 'intorder': n, 'monomial': list(e), 'sequence_of_facet_subsets': fseq, 'index': k})
 
 
 def _oracle_facets(ctx, meshes, tr):
@@ -470,7 +606,7 @@ def replay(ctx, data):
     inp = data.get('input', {})
     ctx.log('replaying', key)
     head = key.split(':')[0]
-    if head not in ('cells', 'subset', 'subdomain', 'facets', 'mass-sum') or 'p' not in inp:
+    if head not in ('cells', 'subset', 'subdomain', 'facets', 'mass-sum', 'subset-seq', 'facet-seq') or 'p' not in inp:
         return run(ctx)
     cls = getattr(skfem, inp['mesh'])
     kw = {'sort_t': False} if 'Tri' in inp['mesh'] else {}
@@ -488,6 +624,21 @@ def replay(ctx, data):
     poly = X.monomial(inp['monomial'])
     F = functional_of(poly)
     n = inp['intorder']
+    if head in ('subset-seq', 'facet-seq'):
+        # the whole sequence on one mesh object, compare the recorded member
+        seq = inp['sequence_of_subsets' if head == 'subset-seq' else 'sequence_of_facet_subsets']
+        for k, sub in enumerate(seq[:inp['index'] + 1]):
+            b = (Basis(m, default_elem(m), intorder=n, elements=np.array(sub)) if head == 'subset-seq'
+                 else FacetBasis(m, default_elem(m), facets=np.array(sub), intorder=n))
+            got = float(F.assemble(b))
+        sub = seq[inp['index']]
+        if head == 'subset-seq':
+            want, sc = float(sum(X.cell_integrals(m, poly, sub))), scale_of(m, poly, meas)
+        else:
+            want, sc = X.facet_integral_value(m, poly, sub), scale_of(m, poly, max(X.facet_integral_value(m, one, sub), 1.0))
+        if tr.cmp(key, 'replayed integral (last of the sequence)', got, want, sc, inp):
+            ctx.log(f'replay: got {got!r}, exact {want!r}: within tolerance, the recorded failure is gone')
+        return
     if head == 'facets':
         fs = np.array(inp['facets'])
         got = float(F.assemble(FacetBasis(m, default_elem(m), facets=fs, intorder=n)))
